@@ -80,6 +80,11 @@ func NewEpochBitmapAllocator(config EpochBitmapConfig) (*EpochBitmapAllocator, e
 	if gracePeriod == 0 {
 		gracePeriod = 1 // Default: 1 epoch grace period
 	}
+	if gracePeriod > 2 {
+		// A 2-bit generation distinguishes ages 0..3; an allocation is expired
+		// at age gracePeriod+1, which must still be representable
+		return nil, fmt.Errorf("grace period %d not supported (maximum 2)", gracePeriod)
+	}
 
 	return &EpochBitmapAllocator{
 		baseIP:         ipNet.IP.To4(),
@@ -108,8 +113,11 @@ func (a *EpochBitmapAllocator) Allocate(ctx context.Context, subscriberID string
 		return a.indexToIP(idx), nil
 	}
 
-	// Find a free slot
-	threshold := a.freeThreshold()
+	// Find a free slot. A slot is free when no subscriber holds it: expired
+	// holders are removed by AdvanceEpoch, released ones by Release. The
+	// generation bits alone cannot tell (a 2-bit value written long ago, or
+	// never, reads as "recent" again every fourth epoch), they only date the
+	// allocation of a held slot.
 
 	// Start from hint for faster allocation
 	for i := uint64(0); i < a.totalIPs; i++ {
@@ -120,8 +128,7 @@ func (a *EpochBitmapAllocator) Allocate(ctx context.Context, subscriberID string
 			continue
 		}
 
-		gen := a.getGeneration(idx)
-		if a.isGenerationFree(gen, threshold) {
+		if _, held := a.ipToSubscriber[idx]; !held {
 			// Found free slot - allocate it
 			a.setGeneration(idx, a.currentGeneration())
 			a.subscribers[subscriberID] = idx
@@ -271,6 +278,11 @@ func (a *EpochBitmapAllocator) AdvanceEpoch() uint64 {
 		if a.isGenerationFree(gen, threshold) {
 			delete(a.subscribers, subscriberID)
 			delete(a.ipToSubscriber, idx)
+
+			// The slot is free again: let the next allocation find it
+			if idx < a.nextFreeHint {
+				a.nextFreeHint = idx
+			}
 		}
 	}
 
@@ -289,10 +301,12 @@ func (a *EpochBitmapAllocator) Stats() (allocated, total uint64, utilization flo
 	a.mu.RLock()
 	defer a.mu.RUnlock()
 
-	// Count active allocations (not expired)
+	// Count active allocations: slots held by a subscriber whose generation
+	// has not expired (never-used and released slots are not held, whatever
+	// their generation bits read)
 	threshold := a.freeThreshold()
 	active := uint64(0)
-	for idx := uint64(1); idx < a.totalIPs-1; idx++ {
+	for idx := range a.ipToSubscriber {
 		gen := a.getGeneration(idx)
 		if !a.isGenerationFree(gen, threshold) {
 			active++
